@@ -376,6 +376,8 @@ class UniqueOutcome(Lemma):
                 ('no-unrecoverable-exit-no-failure-of-its-own', Implies(And(args[0]), Not(x)))]
 
 
+from pyvc.spec import shared as _shared
 TARGETS = [TransitionToFinalState(), PostMortem(), FinishedCheckOnFailure(), StageStateRule(), RunStageLoop(), RunVerdict(), ScheduleShutdownRule(),
+           _shared(_c01.ScheduleTwice(), 'C02'),
            FakeFinish()]
 LEMMAS = [UniqueOutcome()]
